@@ -29,4 +29,62 @@ func init() {
 		Outside:    []string{"strings longer than the bounds", "the compile-time constant requirement on the prefix (C19)"},
 		Intrinsics: []string{"regexp.MustCompile/MatchString = symbolic Thompson simulation of regexp/syntax's compiled program over UTF-8 decodings", "fmt.Sprintf feeding panic: not evaluated"},
 	})
+
+	reg(&Prop{
+		ID:    "C20",
+		Title: "TrustedSourceFromConstantDir keeps dynamic filenames inside the constant dir",
+		Harnesses: []HarnessSpec{
+			{Pkg: "template", Name: "vHarness_C20_dir", Quick: []ParamRange{{"pair", 0, 9}, {"n", 0, 6}}, Thorough: []ParamRange{{"pair", 0, 9}, {"n", 0, 12}}, Reach: []string{"accepted"},
+				Desc: "for 10 (dir, src) pairs and every filename: success => no separator, no list separator, not '..', result == cleaned dir/src or its direct child"},
+		},
+		Probes: []ProbeSpec{
+			{Pkg: "template", Name: "vProbe_C20_dir", NArgs: 3, Alphabet: "ab./:\\\x00 ", MaxLen: 6, N: 600, Extra: []string{"..", ".", "", "a/b", "../x", "a:b"}},
+		},
+		Functions: []string{"template.TrustedSourceFromConstantDir", "template.TrustedSource.String", "path/filepath.Join", "path/filepath.join", "path/filepath.Clean",
+			"internal/filepathlite.Clean", "internal/filepathlite.(*lazybuf).{index,append,string}", "internal/filepathlite.volumeNameLen", "os.IsPathSeparator (stdlib bodies executed from SSA, linux)"},
+		Bounds: map[string]string{
+			"quick":    "filename: every byte string of length 0..6; (dir, src) from 10 representative constant pairs incl. empty, '.', '/', '..', unclean ones",
+			"thorough": "filename: every byte string of length 0..12; same 10 pairs",
+		},
+		Outside:    []string{"filenames longer than the bound", "GOOS other than linux (separator '/', list separator ':')", "symlinks, NUL handling by the OS", "dir/src values other than the 10 pairs"},
+		Intrinsics: []string{"strings.IndexAny, strings.Join: direct byte-vector definitions", "fmt.Errorf: opaque error token"},
+	})
+
+	urlAlphabet := "javscriptJAVSCRIPT:/?#&;x0+.- \t\n\r\x00\x01%="
+	kLess := func(p map[string]int) bool { return p["k"] < p["n"] }
+	reg(&Prop{
+		ID:    "C11",
+		Title: "URLSanitized returns its input or the innocuous URL, and never a javascript: URL",
+		Harnesses: []HarnessSpec{
+			{Pkg: "safehtml", Name: "vHarness_C11_sound", Quick: []ParamRange{{"ascii", 1, 1}, {"n", 0, 16}}, Thorough: []ParamRange{{"ascii", 1, 1}, {"n", 0, 24}}, Reach: []string{"accepted", "rejected"},
+				Desc: "ASCII regime: out in {s, innocuous}; out == s => WHATWG scheme scanner finds no javascript scheme and no '&' before the scheme decision point"},
+			{Pkg: "safehtml", Name: "vHarness_C11_sound", Quick: []ParamRange{{"ascii", 0, 0}, {"n", 0, 4}}, Thorough: []ParamRange{{"ascii", 0, 0}, {"n", 0, 6}},
+				Desc: "general regime (arbitrary bytes, invalid UTF-8, U+0130, U+212A, ...): same obligations"},
+			{Pkg: "safehtml", Name: "vHarness_C11_unescaped", Quick: []ParamRange{{"n", 0, 6}}, Thorough: []ParamRange{{"n", 0, 8}}, Reach: []string{"accepted"},
+				Desc: "direct form of the character-reference clause: the real html.UnescapeString (executed from stdlib SSA with the real entity tables) of an accepted ASCII string has no javascript scheme"},
+			{Pkg: "safehtml", Name: "vHarness_C11_complete_scheme", Quick: []ParamRange{{"ascii", 1, 1}, {"n", 2, 13}, {"k", 1, 12}}, Thorough: []ParamRange{{"ascii", 1, 1}, {"n", 2, 18}, {"k", 1, 17}}, Filter: kLess, Reach: []string{"premise"},
+				Desc: "completeness (a): [A-Za-z0-9+.-]{k}: with scheme != javascript (any case) is returned unchanged"},
+			{Pkg: "safehtml", Name: "vHarness_C11_complete_scheme", Quick: []ParamRange{{"ascii", 0, 0}, {"n", 2, 5}, {"k", 1, 4}}, Thorough: []ParamRange{{"ascii", 0, 0}, {"n", 2, 6}, {"k", 1, 5}}, Filter: kLess,
+				Desc: "completeness (a), arbitrary bytes after the colon"},
+			{Pkg: "safehtml", Name: "vHarness_C11_complete_relative", Quick: []ParamRange{{"ascii", 1, 1}, {"n", 0, 12}}, Thorough: []ParamRange{{"ascii", 1, 1}, {"n", 0, 18}}, Reach: []string{"premise"},
+				Desc: "completeness (b): ':' and '&' only after the first '/', '?' or '#' => returned unchanged"},
+			{Pkg: "safehtml", Name: "vHarness_C11_complete_relative", Quick: []ParamRange{{"ascii", 0, 0}, {"n", 0, 4}}, Thorough: []ParamRange{{"ascii", 0, 0}, {"n", 0, 5}},
+				Desc: "completeness (b), arbitrary bytes"},
+		},
+		Probes: []ProbeSpec{
+			{Pkg: "safehtml", Name: "vProbe_C11_sanitize", NArgs: 1, Alphabet: urlAlphabet, MaxLen: 14, N: 1500, TestDir: "template",
+				Extra: []string{"javascript:alert(1)", "JaVaScRiPt:x", "java\tscript:x", " javascript:x", "javascr\u0130pt:x", "\u212a:x", "a\xffb:c", "&#106;avascript:x", "javascript&colon;x", "/a:b", "?x:y", "#:", "http://x", "x", ""}},
+			{Pkg: "safehtml", Name: "vProbe_C11_ref", NArgs: 1, Alphabet: urlAlphabet, MaxLen: 14, N: 300, Extra: []string{"javascript:", "\x01 jAvAsCrIpT:", "java\nscript:", "javascriptx:", "javascrip:", "j:"}},
+		},
+		Functions: []string{"safehtml.URLSanitized", "safehtml.isSafeURL", "safehtml.URL.String", "safeURLPattern (from the current source)",
+			"html.UnescapeString, html.unescapeEntity, html.populateMaps (stdlib SSA, real entity tables) in the _unescaped harness"},
+		Bounds: map[string]string{
+			"quick":    "ASCII strings of length 0..16 (all 128^n), arbitrary byte strings of length 0..4 (all 256^n); html.UnescapeString form: ASCII 0..6; completeness: ASCII 2..13 / 0..12, arbitrary bytes <= 5 / 4",
+			"thorough": "ASCII strings 0..24, arbitrary byte strings 0..6; html.UnescapeString form: ASCII 0..8; completeness: ASCII up to 18, arbitrary bytes up to 6 / 5",
+		},
+		Outside: []string{"ASCII strings longer than the bound (a javascript: hidden behind more ignorable bytes than fit)", "non-ASCII strings longer than the smaller bound",
+			"browser behaviour outside the WHATWG URL standard", "trailing C0/space stripping (cannot affect the scheme)"},
+		Intrinsics: []string{"strings.ToLower: exact rune-wise model from unicode.CaseRanges (decode, map, encode)", "(*Regexp).FindStringSubmatch: leftmost-first backtracking over regexp/syntax's program, results guarded and decided by the solver",
+			"sync.Once.Do, fmt.Errorf"},
+	})
 }
